@@ -43,9 +43,9 @@ CHECKS["C17"] = (
 )
 
 CHECKS["C02"] = (
-    "Coq induction over program trees on a block-structure model of the emitted Python (py_wf: non-empty suites, else after if, break/continue in a loop and not across a def, return in a def) + proof obligation over template shapes regenerated with Python's ast + three correspondences evaluated in Coq (exact text, block skeleton of ast.parse, py_wf vs compile())",
-    "Machine-checked: every regenerated element/modifier template is a valid context-free statement sequence (C02_templates, finite sweep); for every program tree of any depth the emitted code satisfies Python's context conditions when early exits stand where ctx_ok allows (C02_context_conditions), in particular every program without X/x. That the block model and the text model describe what transpile() emits is checked on every run: exact text equality, skeleton of ast.parse(text) = shape_program, py_wf = compile() verdict.",
-    "Trusted: coqc kernel; translator (template shapes via Python ast/compile); 'a py_wf block tree over compiled leaves renders to compilable text' is measured both ways on every case, not proved (no Python grammar in Coq); model = implementation by correspondence. Two genuine defect classes are recorded as known findings (exit inside a list item in a loop; exit in a while condition).",
+    "Coq induction over program trees on a block-structure model of the emitted Python (py_wf: non-empty suites, else after if, break/continue in a loop and not across a def, return in a def) + proof obligation over template shapes regenerated with Python's ast + Layout.v, an executable reading of Python's line and block structure from TEXT, with theorems tying the exact text model to the block model (C02_layout_tr, all constructors, any dictionary) and the end-to-end C02_text_accepted for all program texts + correspondences evaluated in Coq (exact text, block skeleton of ast.parse, accepts(text) vs compile() on the implementation's texts and on mutants)",
+    "Machine-checked: every regenerated element/modifier template is a valid context-free statement sequence (C02_templates, finite sweep); for every program tree of any depth the emitted code satisfies Python's context conditions when early exits stand where ctx_ok allows (C02_context_conditions), in particular every program without X/x. For every program text that parses with no early exit in a while condition, Layout accepts the emitted text (C02_text_accepted; C02_layout_templates checks the translator's ast-derived template shapes against Coq's own reading of the template text). That the text model is what transpile() emits and that Layout's verdict is CPython's is checked on every run.",
+    "Trusted: coqc kernel; translator (template shapes via Python ast/compile); 'the text Layout accepts compiles' is measured on every case (no full Python grammar in Coq: expression syntax inside a line is the translator's compile() flag per template); model = implementation by correspondence. Known findings: exit in a while condition; a backslash pair that is an incomplete Python escape.",
     "DESIGN.md 7/C02",
 )
 CHECKS["C08"] = (
@@ -62,7 +62,7 @@ CHECKS["C11"] = (
 )
 CHECKS["C13"] = (
     "Coq refinement proof: every LazyList method (heap of cells with lazy-view copies) returns what the same observation returns on the denoted plain list and preserves every cell's denotation; lifted to all histories by induction + correspondence evaluated in Coq",
-    "Machine-checked for every finite source and every history of observations (index with wrap-around, negative index, all slice forms, len, iteration, bool, contains, eq, count, reversed, listify, next, deep copies of copies): outputs = spec on the source, denotations never change (C13_step, C13, C13_denotation_kept).",
+    "Machine-checked for every finite source and every history of observations (index with wrap-around, negative index, all slice forms, len, iteration, bool, contains, eq, count, reversed, listify, next, deep copies of copies): outputs = spec on the source, denotations never change (C13_step, C13, C13_denotation_kept). Oracle-only additions: every slice on every partially generated cache; printed text after observations = printed text of the plain list.",
     "Trusted: coqc kernel; model = vyxal/LazyList.py + helpers.deep_copy is tested (all histories of length 2/3 over 28-30 parametrised operations on 40 sources, random to length 12; length 4 against a plain-list oracle), not proved; CPython generator/tee behaviour is modelled. Slice step 0 is outside (a plain list raises).",
     "DESIGN.md 7/C13",
 )
@@ -81,8 +81,8 @@ CHECKS["C05"] = (
 )
 CHECKS["C06"] = (
     "Coq induction over strings on models of quotify, the lexer string mode, the transpiler's re-escaping and Python's double-quoted literal decoding + correspondence in Coq (py_dq_decode vs ast.literal_eval) + end-to-end oracle",
-    "Machine-checked for every string of quotable characters (in particular every code-page string, any length): tokenise(quotify s) is one STRING token whose re-escaped text decodes to s, the decoder never meets an escape outside \\\\ \\\" \\n; with compression on, printable-ASCII strings pass through dictionary decompression unchanged for any dictionary; a back-quoted literal pushes its contents in any code context.",
-    "Trusted: coqc kernel; Python's decoding of a double-quoted literal restricted to raw characters and the three escapes (checked against ast.literal_eval); model = elements.quotify / lexer / transpile by correspondence; carriage return (not in the code page) is outside.",
+    "Machine-checked for every string of quotable characters (in particular every code-page string, any length): tokenise(quotify s) is one STRING token whose re-escaped text decodes to s, the decoder never meets an escape outside \\\\ \\\" \\n \\r; with compression on, printable-ASCII strings pass through dictionary decompression unchanged for any dictionary; a back-quoted literal pushes its contents in any code context.",
+    "Trusted: coqc kernel; Python's decoding of a double-quoted literal restricted to raw characters and the four escapes (checked against ast.literal_eval); model = elements.quotify / lexer / transpile by correspondence; NUL and surrogates (not in the code page) are outside.",
     "DESIGN.md 7/C06",
 )
 CHECKS["C15"] = (
@@ -119,7 +119,7 @@ CHECKS["C12"] = (
 CHECKS["C18"] = (
     "Coq induction over program trees on the exact text model: every chunk of the emitted text is fixed vocabulary or a payload-carrying shape whose payload is a well-terminated literal body or an identifier over [A-Za-z0-9_] + proof obligations on the regex classes re-read from the re.sub calls + exact-text correspondence + ast whitelist oracle",
     "Machine-checked for every source string and both lexer modes (C18): if transpile returns text, every line of it is either a member of the fixed vocabulary (transpile.py's lines and the regenerated template lines) or one of the listed shapes whose program-derived part is a string body accepted by the double-quote automaton, digits, a repr from the generated table, or an identifier over ASCII letters, digits and underscore; escape_string makes ANY string a safe body (no assumption on the dictionary); each sanitising class is an obligation on the regenerated character class.",
-    "Trusted: coqc kernel; translator (regex classes, template lines, repr table for code-page characters); text model = transpile() by exact-text correspondence on adversarial payloads at every injection position; a raw carriage return (outside the code page) is tolerated by the automaton because Python rejects the whole module (C02's subject).",
+    "Trusted: coqc kernel; translator (regex classes, template lines, repr table for code-page characters); text model = transpile() by exact-text correspondence on adversarial payloads at every injection position; C18_string: the re-escaped text is exactly the body of one well-terminated literal for every string (carriage return is escaped since the repair).",
     "DESIGN.md 7/C18",
 )
 
@@ -132,8 +132,8 @@ CHECKS["C19"] = (
 
 CHECKS["C01"] = (
     "Coq compiler-correctness theorem: an execution model of the emitted code (Machine.v, one state change per emitted line of Transpile.tr) equals the documented semantics written as a direct big-step evaluator (RefSem.v) for every core program, fuel, state and flag set (induction on fuel and tree, one simulation lemma per construct) + three ties to the implementation evaluated in Coq (Machine vs real runs, RefSem vs real runs, exact text)",
-    "Machine-checked for every core program of any nesting depth, every input list and the nine flag sets: exec = eval on stack, printed text, variables, register, input cursors, errors and out-of-fuel (C01_compile_correct, C01_compile_correct_in_def, C01 for whole programs incl. start-up and implicit output), both evaluators leave the interpreter context balanced, and the regenerated template text/arity of every core element and modifier is the one the machine gives meaning to (C01_templates). Core: integer literals, 37 stack/arithmetic/list elements, variables, if/for/while, the four lambdas and the shorthand lambdas, named functions with numeric/named/* parameters, list literals, modifiers v & ~ ß ƒ ɖ ₌ ₍.",
-    "Trusted: coqc kernel; CPython executing the emitted lines as Machine.v says is the principal modelled-not-verified link (checked by Machine-vs-implementation runs over generated programs x inputs x flags); element semantics are shared by both evaluators (their fidelity matters only for the ties); outside the core: strings, X/x, assignments inside defs, closures over enclosing parameters. Known finding: a function value as if-condition / for-iterable is not called first (Structures.md).",
+    "Machine-checked for every core program of any nesting depth, every input list and the nine flag sets: exec = eval on stack, printed text, variables, register, input cursors, errors and out-of-fuel (C01_compile_correct, C01_compile_correct_in_def, C01 for whole programs incl. start-up and implicit output), both evaluators leave the interpreter context balanced, and the regenerated template text/arity of every core element and modifier is the one the machine gives meaning to (C01_templates). Core: integer and string literals, 37 stack/arithmetic/list elements with their number / string / list overloads, variables and function definitions anywhere (Python's scoping of the emitted names, closures with their cells, recursion by name), if/for/while, the four lambdas and the shorthand lambdas, named functions with numeric/named/* parameters, list literals, modifiers v & ~ ß ƒ ɖ ₌ ₍, early exits X / x (break, continue, early return, recursion; C01_early_exits).",
+    "Trusted: coqc kernel; CPython executing the emitted lines as Machine.v says is the principal modelled-not-verified link (checked by Machine-vs-implementation runs over generated programs x inputs x flags); element semantics are shared by both evaluators (their fidelity matters only for the ties); outside the core: the ghost variable and _ names, X in a while condition, string literals with escapes or non-ASCII text; lazily applied bodies with side effects are not compared (EStuck). Known finding: a function value as if-condition / for-iterable is not called first (Structures.md).",
     "DESIGN.md 7/C01",
 )
 
